@@ -26,7 +26,7 @@ MANIFEST = {
             "Directive effects (Kernel/Directive.v): the step in which a supervisor runs an accident record decides what the configuration says (victim strategy, else the supervisor's "
             "directive list at the victim's accident count, else escalation), shows it first, and queues exactly the message carrying that directive at the victim's registered object "
             "(the same record at the supervisor's parent for Escalate; a crash beyond the root) — C04_decided_directive_takes_effect; Resume keeps instance number and queues "
-            "(C04_resume_continues_same_instance_and_queue); a terminate request makes its receiver terminating (C04_stop_request_makes_receiver_terminating). "
+            "(C04_resume_continues_same_instance_and_queue); the step that takes a restart request keeps the queued user messages in order and shows OnRestarting first (C04_restart_request_keeps_queue); a terminate request makes its receiver terminating (C04_stop_request_makes_receiver_terminating). "
             "Proved: a suspended "
             "mailbox never hands a user message to the actor, a suspension (with no resume request pending for the address) is lifted only by the directive (Resume, completed restart, "
             "termination), registry well-formedness; the trace-level statement 'no user message between failure and decision' is checked "
